@@ -45,3 +45,20 @@ package websocket
 //@   ensures [frame] avail >= 2 + ext && c.maxMessageSize >= 0 && decl <= uint64(c.maxMessageSize) && uint64(avail) >= uint64(hdr) + decl ==>
 //@           result1 == nil && c.decodeReset && len(result0) == hdr + int(decl) &&
 //@           alias(result0, src.data[src.si : src.si + hdr + int(decl)]) && alias(c.decodeFrame, result0)
+
+// Encode appends exactly the frame's bytes to the read area of dst (committed), or leaves
+// dst as it was on error.
+//@ func (*FrameCodec).Encode
+//@   prop C16, C07
+//@   requires dst != nil && sonic.bbInv(dst) && cap(dst.data) <= 1<<43 && frameWF(frame) && len(frame) <= 1<<40 &&
+//@            disjoint(frame, dst.data[0:cap(dst.data)]) && dst.wi == dst.ri
+//@   inline call (Frame).WriteTo
+//@   loop (Frame).WriteTo#1 invariant 0 <= written && written <= len(f) && sonic.bbInv(dst) && dst.si == old(dst.si) && dst.ri == old(dst.ri) &&
+//@          dst.wi == old(dst.wi) + written && len(f) - written <= cap(dst.data) - dst.wi && cap(dst.data) <= 1<<46 &&
+//@          disjoint(frame, dst.data[0:cap(dst.data)])
+//@   loop (Frame).WriteTo#1 invariant forall j :: 0 <= j && j < old(dst.wi) ==> dst.data[j] == old(dst.data[j])
+//@   loop (Frame).WriteTo#1 invariant forall j :: 0 <= j && j < written ==> dst.data[old(dst.wi) + j] == old(frame[j])
+//@   // bytes on the wire for this frame == the frame: header plus declared payload, nothing else
+//@   ensures [appended] result == nil ==> sonic.bbInv(dst) && dst.si == old(dst.si) && dst.ri == old(dst.ri) + len(frame) && dst.wi == dst.ri
+//@   ensures [bytes] result == nil ==> (forall j :: 0 <= j && j < len(frame) ==> dst.data[old(dst.ri) + j] == old(frame[j]))
+//@   ensures [kept] result == nil ==> (forall j :: 0 <= j && j < old(dst.ri) ==> dst.data[j] == old(dst.data[j]))
